@@ -5,7 +5,7 @@ Open Scope N_scope.
 Definition k_FRAME : bytes := [70;82;65;77;69].
 
 (* FRAME n chunk*  ->  k msg* *)
-Definition run_frame_line (line : bytes) : bytes :=
+Definition run_reassembly_line (line : bytes) : bytes :=
   match tokens line with
   | k :: n :: r =>
       if negb (beq k_FRAME k) then s_BAD else
@@ -22,4 +22,37 @@ Definition run_frame_line (line : bytes) : bytes :=
       | None => s_BAD
       end
   | _ => s_BAD
+  end.
+
+Definition k_WRITE : bytes := [87;82;73;84;69].
+
+(* WRITE n msg* at keep  ->  the outbound byte stream (hex); at = 0: no write fails, otherwise the
+   write of hand-off number at (1-based) takes keep bytes *)
+Definition run_write_line (line : bytes) : bytes :=
+  match tokens line with
+  | k :: n :: r =>
+      if negb (beq k_WRITE k) then s_BAD else
+      match tok_nat n with
+      | Some cnt =>
+          match p_count (fun ts => match ts with
+                                   | t :: r' => match unhex t with Some x => Some (x, r') | None => None end
+                                   | [] => None end) cnt r with
+          | Some (msgs, [a; kp]) =>
+              match tok_nat a, tok_nat kp with
+              | Some O, Some _ => hex (writer msgs None)
+              | Some (S at0), Some keep => hex (writer msgs (Some (at0, keep)))
+              | _, _ => s_BAD
+              end
+          | _ => s_BAD
+          end
+      | None => s_BAD
+      end
+  | _ => s_BAD
+  end.
+
+(* the driver's entry point for the family "frame" *)
+Definition run_frame_line (line : bytes) : bytes :=
+  match tokens line with
+  | k :: _ => if beq k_WRITE k then run_write_line line else run_reassembly_line line
+  | [] => s_BAD
   end.
